@@ -117,6 +117,33 @@ func c01Judge(k c01Case) *vlib.Failure {
 			}
 			return nil
 		}
+		if ps, ok := strings.CutPrefix(k.Via, "api-behind:"); ok {
+			var pi int
+			fmt.Sscan(ps, &pi)
+			presets := []map[string][]string{{"Vary": {"Origin"}}, {"Vary": {"Accept-Encoding", "Origin"}}, {"Vary": {"Origin, Access-Control-Request-Method"}}, {"Vary": {"origin"}}, nil}
+			m, err := cors.NewMiddleware(cors.Config{Origins: k.Patterns})
+			outer, err2 := cors.NewMiddleware(cors.Config{Origins: []string{"https://outer.example"}})
+			if err != nil || err2 != nil {
+				return vlib.Failf("configuration rejected: %v %v", err, err2)
+			}
+			for _, dbg := range []bool{false, true} {
+				m.SetDebug(dbg)
+				rec := vlib.NewRec()
+				for hk, v := range presets[pi] {
+					rec.H[hk] = append([]string(nil), v...)
+				}
+				hh, w := m.Wrap(noopHandler), want
+				if presets[pi] == nil {
+					hh, w = outer.Wrap(hh), want || k.Origin == "https://outer.example"
+				}
+				hh.ServeHTTP(rec, vlib.Req{Method: "GET", Hdr: map[string][]string{"Origin": {k.Origin}}}.HTTP())
+				acao := rec.H["Access-Control-Allow-Origin"]
+				if got := len(acao) == 1 && acao[0] == k.Origin; got != w {
+					return vlib.Failf("Origins=%q debug=%t: GET with Origin %q behind %v (nil: an outer middleware for https://outer.example): ACAO=%q, allowed: %t", k.Patterns, dbg, k.Origin, presets[pi], acao, w)
+				}
+			}
+			return nil
+		}
 		return vlib.Failf("bad case")
 	}
 	return nil
@@ -787,6 +814,39 @@ func checkC01(c *vlib.Ctx) (string, string) {
 									return vlib.Guard(func() *vlib.Failure { return c01Judge(c01Case{list, o, "api-with-header:" + e[0] + ":" + e[1]}) })
 								}, "")
 						}
+					}
+				}
+			}
+		}
+	}
+	// what is already in the response header map, and another middleware around this one, do not change the verdict:
+	// pre-set Vary values; an outer middleware with a disjoint origin list (the verdict for the nest is the union)
+	for _, list := range [][]string{{"https://a.b"}, {"https://*.a.b:*", "http://c.d"}} {
+		m, err := cors.NewMiddleware(cors.Config{Origins: list})
+		outer, err2 := cors.NewMiddleware(cors.Config{Origins: []string{"https://outer.example"}})
+		if err != nil || err2 != nil {
+			continue
+		}
+		h := m.Wrap(noopHandler)
+		nest := outer.Wrap(h)
+		for _, dbg := range []bool{false, true} {
+			m.SetDebug(dbg)
+			for _, o := range []string{"https://a.b", "https://x.a.b:8", "http://c.d", "https://evil.b", "https://xa.b", "https://outer.example"} {
+				for pi, preset := range []map[string][]string{{"Vary": {"Origin"}}, {"Vary": {"Accept-Encoding", "Origin"}}, {"Vary": {"Origin, Access-Control-Request-Method"}}, {"Vary": {"origin"}}, nil} {
+					rec := vlib.NewRec()
+					for k, v := range preset {
+						rec.H[k] = append([]string(nil), v...)
+					}
+					hh, want := h, ref.DenotedByAny(list, o)
+					if preset == nil {
+						hh, want = nest, want || o == "https://outer.example"
+					}
+					hh.ServeHTTP(rec, vlib.Req{Method: "GET", Hdr: map[string][]string{"Origin": {o}}}.HTTP())
+					acao := rec.H["Access-Control-Allow-Origin"]
+					c.Evaluations.Add(1)
+					if got := len(acao) == 1 && acao[0] == o; got != want {
+						via := fmt.Sprintf("api-behind:%d", pi)
+						ck.C.Violation(c01Case{list, o, via}, vlib.Failf("Origins=%q debug=%t: GET with Origin %q behind %v (nil: an outer middleware for https://outer.example): ACAO=%q, allowed: %t", list, dbg, o, preset, acao, want), nil, "")
 					}
 				}
 			}
